@@ -59,7 +59,7 @@ def _fields(m, cls, ref_t, depth, seen):
                 continue
             terms = []
             for i, s in enumerate(sorts(ty)):
-                arr = z3.Const("H_f_%s_%d" % (attr, i), z3.ArraySort(z3.IntSort(), s))
+                arr = z3.Const("H_f_%s.%s_%d" % (cd.name, attr, i), z3.ArraySort(z3.IntSort(), s))
                 terms.append(z3.Select(arr, ref_t))
             v = _typed(m, ty, terms)
             if ty.kind == "ref" and depth > 0 and isinstance(v, dict) and isinstance(v.get("ref"), int) \
